@@ -8,7 +8,7 @@ from rustcut import AnchorLost, code_mask, match_brace
 
 CLAUSE_KEYS = ('requires', 'ensures', 'decreases', 'invariant', 'invariant_except_break',
                'proof_entry', 'proof_loop_entry', 'external_body', 'loop_ensures', 'opaque_body', 'fuel',
-               'attr', 'annotate', 'iter_name', 'proof')
+               'attr', 'annotate', 'iter_name', 'proof', 'returns')
 
 
 class SpecError(Exception):
@@ -132,11 +132,13 @@ def resolve_marks(name, body, text):
     return re.sub(r'\$m(\d+)', rep, text)
 
 
-CLOSURE_RX = re.compile(r'\|([^|{};]*)\|\s*(->\s*\(\s*\w+\s*:[^)]*\)\s*)?\{')
+CLOSURE_RX = re.compile(r'\|([^|{};]*)\|\s*(->\s*\(\s*\w+\s*:[^)]*\)\s*)?')
 
 
 def find_closures(body):
-    """-> list of (params_start, params_end, brace_index) for every block-bodied closure in source order."""
+    """-> list of (params_start, params_end, body_start, body_end, is_block) for every closure in source order.
+    For a block-bodied closure body_start is the index of its `{`; for an expression-bodied one
+    [body_start, body_end) is the expression (up to the next top-level `,` or the closing `)` of the call)."""
     mask = code_mask(body)
     res = []
     for mm in CLOSURE_RX.finditer(body):
@@ -147,7 +149,26 @@ def find_closures(body):
             k -= 1
         if k >= 0 and body[k] not in '=(,':
             continue
-        res.append((mm.start(1), mm.end(1), mm.end() - 1))
+        b = mm.end()
+        if b < len(body) and body[b] == '{':
+            res.append((mm.start(1), mm.end(1), b, match_brace(body, mask, b) + 1, True))
+            continue
+        if mm.group(2):
+            continue
+        pd, e = 0, b
+        while e < len(body):
+            if mask[e]:
+                c = body[e]
+                if c in '([{':
+                    pd += 1
+                elif c in ')]}':
+                    if pd == 0:
+                        break
+                    pd -= 1
+                elif c in ',;' and pd == 0:
+                    break
+            e += 1
+        res.append((mm.start(1), mm.end(1), b, e, False))
     return res
 
 
@@ -243,7 +264,7 @@ def weave_body(name, body, loops_spec, proof_entry, used, fn_need=None):
             edits.append((mm.end(), 0, sp['iter_name'].strip() + ': '))
     # ---- closure contracts
     closures = find_closures(orig_body)
-    for k, (ps, pe, br) in enumerate(closures):
+    for k, (ps, pe, br, be, is_block) in enumerate(closures):
         sp = getattr(loops_spec, 'closures', {}).get((name, k))
         if not sp:
             continue
@@ -260,8 +281,15 @@ def weave_body(name, body, loops_spec, proof_entry, used, fn_need=None):
         for key in ('requires', 'ensures'):
             if sp.get(key):
                 cl.append('            %s %s' % (key, sp[key].rstrip(',') + ','))
-        if cl:
-            edits.append((br, 0, '\n' + '\n'.join(cl) + '\n        '))
+        ret = ' -> %s' % sp['returns'].strip() if sp.get('returns') else ''
+        if is_block:
+            if cl or ret:
+                edits.append((br, 0, ret + '\n' + '\n'.join(cl) + '\n        '))
+        else:
+            # an expression-bodied closure that receives a contract gets its body wrapped in a block
+            # (Rust's grammar requires a block once a return type is written): `|x| e` -> `|x: T| -> (r: U) ensures .. { e }`
+            edits.append((br, 0, ret + '\n' + '\n'.join(cl) + '\n        { '))
+            edits.append((be, 0, ' }'))
     # ---- proof hints at positional anchors (call ordinal / loop ordinal)
     for where, target, sp in getattr(loops_spec, 'hints', {}).get(name, []):
         text = sp.get('proof', '')
